@@ -16,6 +16,7 @@ import KafkaVerif.Lemmas.WriterProgress
 import KafkaVerif.Lemmas.WriterQuiesce
 import KafkaVerif.Lemmas.WriterCopies
 import KafkaVerif.Lemmas.WriterMsgCount
+import KafkaVerif.Model.WriterRecords
 import KafkaVerif.Lemmas.RecordWriter
 import KafkaVerif.Gen.WriterConsts
 
@@ -390,6 +391,29 @@ theorem produce_on_the_wire_compressed (cfg : Cfg) (s s' : State) (hr : Reachabl
   obtain ⟨bytes, f, h1, h2, -, h4, -, h6⟩ :=
     Model.RecordWriter.writeV2C_spec crc hcrc comp dec attrs now (msgs.map payload) hne' hwf hcodec hlog hdec
   exact ⟨bytes, f, h1, h2, by rw [h4, List.length_map], h6⟩
+
+/-! ### the record handed to the encoder is the message as given (null stays null, empty stays empty) -/
+
+/-- **source_resets_record** — in the source as it stands `(*writerRecords).ReadRecord` starts every record from a clean
+slate (regenerated on every run by go/extract/writer) -/
+theorem source_resets_record : Gen.readRecordResets = true := by decide
+
+/-- **records_as_given** — the records of a produce request, as the encoder reads them from the Writer's reused
+`Record`, are the messages of the batch as given, in order: a nil Key / Value is null, an empty one is empty, bytes are
+the bytes — whatever the previous record of the same request carried.  (With `produce_on_the_wire`, whose `payload` is
+arbitrary: the bytes on the wire decode to exactly these keys and values.) -/
+theorem records_as_given (prev : WriterRecords.Slot) (msgs : List WriterRecords.Content) :
+    WriterRecords.readAll Gen.readRecordResets prev msgs = msgs.map WriterRecords.asGiven := by
+  rw [source_resets_record]
+  exact WriterRecords.readAll_reset prev msgs
+
+/-- without the reset a tombstone that follows a message with a value goes out with an EMPTY value, and an unkeyed
+message after a keyed one with an empty key: the clause fails (this is what `source_resets_record` rules out) -/
+theorem stale_record_counterexample :
+    WriterRecords.readAll false WriterRecords.Slot.clean
+      [{ key := some [1], value := some [2] }, { key := some [1], value := none }, { key := none, value := some [3] }] =
+      [{ key := some [1], value := some [2] }, { key := some [1], value := some [] }, { key := some [], value := some [3] }] := by
+  decide
 
 /-- **return_enabled_when_batches_done** — a synchronous caller is never stuck once its batches are completed: when
 every batch holding a message of the call has its final result, WriteMessages' return is enabled — with nil if all
